@@ -8,8 +8,14 @@ checks, na = [], []
 PENDING = {}
 if os.path.exists("/verif/checks/not_claimed.json"):
     PENDING = json.load(open("/verif/checks/not_claimed.json"))
+WIP = [l.strip() for l in open("/verif/coq/wip.exclude")] if os.path.exists("/verif/coq/wip.exclude") else []
+def is_wip(pid):
+    return any(re.search(pat, "theories/props/%s.v" % pid) for pat in WIP if pat)
 for pid in props:
     path = "/verif/checks/%s.py" % pid
+    if is_wip(pid):
+        na.append(dict(property_id=pid, reason=PENDING.get(pid, "not claimed yet: its theorems are still being proved (work in progress, excluded from the strict build by coq/wip.exclude)")))
+        continue
     if not os.path.exists(path) or not os.path.exists("/verif/coq/theories/props/%s.v" % pid):
         na.append(dict(property_id=pid, reason=PENDING.get(pid, "not claimed yet: its model layer and theorems are not built in this tree (see DESIGN.md section 7 for the plan)")))
         continue
